@@ -135,8 +135,40 @@ def run(ck):
     files = sl.Files(pg)
     try:
         _run(ck, pg, pgsql, BaseIsotherm, rng, thorough, files)
+        _bulk(ck, pg, pgsql, rng, thorough, files)
     finally:
         files.close()
+
+
+def _bulk(ck, pg, pgsql, rng, thorough, files):
+    """A store holding more isotherms than any internal batch size: everything stored is retrievable, selectable and deletable."""
+    path = files.new()
+    n = 260 if thorough else 130
+    for t in ("isotherm", "pointisotherm", "modelisotherm"):
+        pgsql.isotherm_type_to_db({"type": t}, db_path=path, verbose=False)
+    pgsql.material_to_db(pg.Material("pgv-bulk"), db_path=path, verbose=False)
+    pgsql.adsorbate_to_db(pg.Adsorbate("pgv-bulk-gas", store=False), db_path=path, verbose=False)
+    ids = []
+    for i in range(n):
+        iso = pg.PointIsotherm(pressure=[0.1, 0.2 + i * 1e-3, 0.5], loading=[1.0, 2.0, 3.0 + i], material="pgv-bulk", adsorbate="pgv-bulk-gas", temperature=300.0,
+                               pressure_mode="absolute", pressure_unit="bar", loading_basis="molar", loading_unit="mmol", material_basis="mass", material_unit="g", temperature_unit="K")
+        pgsql.isotherm_to_db(iso, db_path=path, verbose=False)
+        ids.append(iso.iso_id)
+    got = pgsql.isotherms_from_db(db_path=path, verbose=False)
+    ck.count(("bulk", n), bucket="bulk store")
+    got_ids = sorted(g.iso_id for g in got)
+    if got_ids != sorted(ids):
+        ck.fail_case({"op": "isotherms_from_db", "clause": "what can be retrieved equals what was stored", "bulk": True}, {"stored": n, "retrieved": len(got), "missing": len(set(ids) - set(got_ids))})
+    sel = pgsql.isotherms_from_db(criteria={"material": "pgv-bulk"}, db_path=path, verbose=False)
+    if len(sel) != n:
+        ck.fail_case({"op": "isotherms_from_db(criteria)", "clause": "what can be retrieved equals what was stored", "bulk": True}, {"stored": n, "retrieved": len(sel)})
+    # the last stored one can be deleted through what was retrieved
+    last = [g for g in got if g.iso_id == ids[-1]]
+    if last:
+        pgsql.isotherm_delete_db(last[0], db_path=path, verbose=False)
+        left = pgsql.isotherms_from_db(db_path=path, verbose=False)
+        if sorted(g.iso_id for g in left) != sorted(ids[:-1]) and got_ids == sorted(ids):
+            ck.fail_case({"op": "isoDelete", "clause": "deletion removes exactly that item", "bulk": True}, {"left": len(left), "expected": n - 1})
 
 
 def _run(ck, pg, pgsql, BaseIsotherm, rng, thorough, files):
